@@ -8,10 +8,12 @@ import (
 	"os"
 
 	"verifharness/lib"
+	"verifharness/props/c15"
 	"verifharness/props/c16"
 )
 
 var table = map[string]func(lib.Opts){
+	"C15": c15.Run,
 	"C16": c16.Run,
 }
 
